@@ -383,6 +383,9 @@ def gen_val(rng, d, valid=True):
     return {n: gen_val(rng, s, valid) for n, s in d[1].items()}
 
 
+FLAG_SPELLINGS = {'on': ['on', 1, True], 'auto': ['auto', 2, 2.0], 'off': ['off', 0, False]}
+
+
 def gen_spec(rng, big):
     n = rng.choice([1, 2, 2, 3, 4] + ([6] if big else []))
     params = []
@@ -392,6 +395,14 @@ def gen_spec(rng, big):
         write = rng.random() < 0.5
         params.append({'name': 'p%d' % i, 'dt': d, 'flag': flag, 'write': write,
                        'readonly': (not write) and rng.random() < 0.6, 'default': gen_val(rng, d)})
+        if flag is not None:
+            # how the flag is written: name, number or bool in the class definition; in 15 % the class says something else
+            # and the configuration sets the property
+            if rng.random() < 0.15:
+                params[-1]['classflag'] = rng.choice(FLAG_SPELLINGS[rng.choice([k for k in FLAG_SPELLINGS if k != flag])])
+                params[-1]['cfgflag'] = rng.choice(FLAG_SPELLINGS[flag][:2])
+            else:
+                params[-1]['classflag'] = rng.choice(FLAG_SPELLINGS[flag])
     cfg = {}
     for p in params:
         if rng.random() < 0.3:
@@ -428,7 +439,8 @@ def make_class(spec):
         if p['flag'] is None:
             attrs[p['name']] = Parameter('', dt, default=default, readonly=p['readonly'])
         else:
-            attrs[p['name']] = PersistentParam('', dt, default=default, readonly=p['readonly'], persistent=p['flag'])
+            attrs[p['name']] = PersistentParam('', dt, default=default, readonly=p['readonly'],
+                                               persistent=p.get('classflag', p['flag']))
         if p['write']:
             def wfunc(self, value, _n=p['name']):
                 self.wlog.append([_n, repr(value)])
@@ -480,6 +492,8 @@ class Bench:
         for p in spec['params']:
             if p['name'] in spec['cfg']:
                 cfg[p['name']] = {'value': to_py(p['dt'], spec['cfg'][p['name']])}
+            if 'cfgflag' in p:
+                cfg.setdefault(p['name'], {})['persistent'] = p['cfgflag']
         self.fs.reset(fault)
         try:
             m = cls('m', _Logger(), cfg, _Srv())
@@ -649,8 +663,13 @@ def restart(spec, target, tmp):
         rec = step_record(bench, m, exc)
         if m is not None:
             rec['hasWrite'] = {n: hasattr(m, 'write_' + n) for n in m.parameters}
-            rec['persistent'] = {n: bool(getattr(p, 'persistent', False)) for n, p in m.parameters.items()}
-            rec['auto'] = {n: getattr(p, 'persistent', False) == 'auto' for n, p in m.parameters.items()}
+            # what the model and the judges are told about the flags comes from the declaration (`flag` = what the class
+            # definition and the configuration, in whatever spelling, mean), not from what the code made of it
+            declared = {p['name']: p['flag'] for p in spec['params']}
+            rec['persistent'] = {n: declared[n] in ('on', 'auto') if n in declared else bool(getattr(p, 'persistent', False))
+                                 for n, p in m.parameters.items()}
+            rec['auto'] = {n: declared[n] == 'auto' if n in declared else getattr(p, 'persistent', False) == 'auto'
+                           for n, p in m.parameters.items()}
             rec['module'] = m
         return rec
     finally:
@@ -825,7 +844,7 @@ def gen_case(rng, spec, big):
     acts = []
     names = [p['name'] for p in spec['params']]
     pers = [p for p in spec['params'] if p['flag'] in ('on', 'auto')]
-    if rng.random() < 0.5:
+    if rng.random() < 0.7:
         # what the poller does first; from then on no configured write is pending and saves are not deferred
         acts.append({'a': 'writeInit'})
     for _ in range(rng.randint(2, 9 if big else 6)):
